@@ -34,6 +34,11 @@ var Quirks = []Quirk{
 // the generator steers away from exactly those.
 func OpenQuirks() map[string]bool {
 	out := map[string]bool{}
+	for _, id := range []string{"C02-body-fields-client-sends-whole-payload"} {
+		if kf.Open(id) {
+			out[id] = true
+		}
+	}
 	for _, q := range Quirks {
 		if kf.Open(q.ID) {
 			out[q.ID] = true
